@@ -167,13 +167,23 @@ where
 
     fn size(&self) -> usize {
         let mut iter = self.bytes_iter();
-        let last_payload = match (&mut iter).map(Result::unwrap).last() {
-            Some(payload) => payload,
-            None => return Self::OFFSET_SIZE,
-        };
-        match iter.data {
+        // Position of the offset slot of the last item and its payload.
+        let mut last = None;
+        loop {
+            let slot_pos = iter.pos;
+            match iter.next() {
+                Some(payload) => last = Some((slot_pos, payload.unwrap())),
+                None => break,
+            }
+        }
+        match last {
+            None => Self::OFFSET_SIZE,
+            // The last item is marked with `L::MAX` and owns the rest.
+            Some((slot_pos, payload)) if slot_pos == iter.pos => {
+                slot_pos + Self::OFFSET_SIZE + ceil_mul(T::from_bytes(payload).unwrap().size(), Self::ALIGN)
+            }
+            // The chain is terminated by zero offset slot at `iter.pos`.
             Some(_) => iter.pos + Self::OFFSET_SIZE,
-            None => iter.pos + ceil_mul(T::from_bytes(last_payload).unwrap().size(), Self::ALIGN),
         }
     }
 }
